@@ -12,7 +12,7 @@ integer Pythagorean triples times a dyadic scale), so that the model's exact squ
 
 The oracles are written from the property statements (C03/C04/C05/C07 image halves + C13 "inputs untouched") with
 numpy-free exact arithmetic on the observations; they never consult the Coq model."""
-import copy, math, itertools
+import os, re, copy, math, itertools
 from fractions import Fraction as Fr
 
 from vlib.coqlit import cnat, cz, cbool, clist, copt, cpair, cq
@@ -83,10 +83,17 @@ def snapshot(w):
 
 
 def _err(e):
-    name = type(e).__name__
-    if name == 'ValueError' and str(e).startswith('abs:'):
+    """exception -> observation.  The class is mapped through its MRO (a subclass of ValueError is a ValueError); the
+    missing key of a KeyError is kept ('exc_key': the extension-level finding signatures look at it, never at message text)."""
+    if isinstance(e, getattr(extlib, 'AbstractionError', ())) or (isinstance(e, ValueError) and str(e).startswith('abs:')):
         return {'err': 'ECrash', 'exc': 'Abstraction', 'msg': str(e)}
-    return {'err': ERRMAP.get(name, 'ECrash'), 'exc': name, 'msg': str(e)[:200]}
+    enum = 'ECrash'
+    for cls in type(e).__mro__:
+        if cls.__name__ in ERRMAP:
+            enum = ERRMAP[cls.__name__]
+            break
+    key = e.args[0] if isinstance(e, KeyError) and e.args and isinstance(e.args[0], str) else None
+    return {'err': enum, 'exc': type(e).__name__, 'exc_key': key, 'msg': str(e)[:200]}
 
 
 def run_merge(case):
@@ -258,10 +265,18 @@ def shifted(A, v):
     return with_col(A, 3, [A[i][3] + v[i] for i in range(3)])
 
 
+_HI = [3]          # largest extent of an axis: 3 in the quick tier; 5 (4 for 5-D shapes) in the thorough tier (set by gen_cases)
+
+
+def set_tier(tier):
+    _HI[0] = 3 if tier == 'quick' else 5
+
+
 def gen_img_shape(rng, ndim=None, singular=None, trailing=None):
-    """3-5-D, extents 1..3; singular = axis forced to 1; trailing=True forces (X,Y,Z,1) / (X,Y,Z,1,V) style shapes."""
+    """3-5-D, extents 1.._HI; singular = axis forced to 1; trailing=True forces (X,Y,Z,1) / (X,Y,Z,1,V) style shapes."""
     ndim = ndim or rng.choice([3, 3, 4, 4, 5, 5])
-    sh = [rng.randint(1, 3) for _ in range(ndim)]
+    hi = min(_HI[0], 4) if ndim == 5 else _HI[0]
+    sh = [rng.randint(1, hi) for _ in range(ndim)]
     if trailing and ndim >= 4:
         sh[3] = 1
     if singular is not None and singular < ndim:
@@ -316,7 +331,7 @@ def pick_merge_shape(rng, dim):
 def gen_merge_ok(rng, dim=None, n=None, with_keys=False):
     """A sequence the property says must merge."""
     dim = rng.randrange(5) if dim is None else dim
-    n = n or rng.randint(2, 4)
+    n = n or rng.randint(2, 4 if _HI[0] == 3 else 7)
     sh = pick_merge_shape(rng, dim)
     A = gen_img_affine(rng, keep=dim if dim < 3 else None)
     sl = rng.choice([0, 1, 2, 2, None])
@@ -353,7 +368,7 @@ def gen_merge_ok(rng, dim=None, n=None, with_keys=False):
         # (key-carrying extensions only as consistent sets from extlib.gen_merge_case: a lone one next to empty extensions
         #  is the region of the open extension-level findings N3 / N4)
         exts = [gen_ext_for(rng, sh, sl, affs[i], keys=False) if rng.random() < 0.5 else None for i in range(n)]
-    ws = [{'img': mk_I(rng, sh, affs[i], sl, 1000 * i), 'ext': exts[i]} for i in range(n)]
+    ws = [{'img': mk_I(rng, sh, affs[i], sl, 1100 * i), 'ext': exts[i]} for i in range(n)]
     return {'kind': kind, 'ws': ws, 'dim': dim}
 
 
@@ -406,7 +421,7 @@ def gen_merge_err(rng):
             Ai = shifted(base, [float(i) * x for x in col(base, dim)])
             if i >= 1:
                 Ai = with_col(Ai, dim, [x / 1048576.0 for x in tilt])
-            ws.append({'img': mk_I(rng, sh, Ai, 2, 1000 * i), 'ext': None})
+            ws.append({'img': mk_I(rng, sh, Ai, 2, 1100 * i), 'ext': None})
         c.update(ws=ws, dim=dim)
     elif what in ('zero-step', 'dup'):
         i = rng.randrange(1, n)
@@ -432,7 +447,7 @@ def gen_merge_err(rng):
         step[dim] = float(cc) * 0.25
         ws = []
         for i in range(rng.randint(2, 3)):
-            ws.append({'img': mk_I(rng, sh, shifted(base, [float(i) * x for x in step]), dim, 1000 * i), 'ext': None})
+            ws.append({'img': mk_I(rng, sh, shifted(base, [float(i) * x for x in step]), dim, 1100 * i), 'ext': None})
         c.update(ws=ws, dim=dim)
     elif what == 'nonsingular':
         sh = ws[0]['img']['shape']
@@ -461,7 +476,7 @@ def gen_merge_err(rng):
         ws = []
         for i in range(rng.randint(2, 3)):
             Ai = shifted(A, [float(i) * x for x in col(A, d)]) if d < 3 else A
-            ws.append({'img': mk_I(rng, sh, Ai, rng.choice([2, None]), 1000 * i), 'ext': None})
+            ws.append({'img': mk_I(rng, sh, Ai, rng.choice([2, None]), 1100 * i), 'ext': None})
         c.update(ws=ws, dim=None)
     elif what == 'single':
         c['ws'] = ws[:1]
@@ -486,7 +501,7 @@ def gen_merge_err(rng):
         # open finding N1: 4-D inputs with T = 1 merged along dim 4 (KeyError 'time' from the extension merge)
         sh = gen_img_shape(rng, 4, singular=3)
         A = gen_img_affine(rng)
-        c.update(ws=[{'img': mk_I(rng, sh, A, 2, 1000 * i), 'ext': None} for i in range(2)], dim=4)
+        c.update(ws=[{'img': mk_I(rng, sh, A, 2, 1100 * i), 'ext': None} for i in range(2)], dim=4)
     return c
 
 
@@ -621,85 +636,245 @@ def classify_merge(ws, dim):
     return verdict
 
 
-def consistent(W, E):
-    """input wrapper whose extension agrees with its image (the C07 invariant)"""
-    return E['shape'] == W['img']['shape'] and E['sdim'] == W['img']['slice']
+def truth_ext(W):
+    """Header of the extension a generated wrapper carries, FROM THE CASE (never read back from the library):
+    the explicit extension, or for make_empty=True wrappers an empty one with the image's shape / slice dim / affine."""
+    E = W.get('ext')
+    if E is not None:
+        return E
+    I = W['img']
+    n = len(I['shape'])
+    return {'shape': list(I['shape']), 'sdim': I['slice'], 'aff': I['aff'],
+            'ht': n == 4 or (n > 4 and I['shape'][3] != 1), 'hv': n > 4, 'entries': []}
 
 
-def oracle_merge(case, obs):
-    """C03 (data stacked in input order, affine extended, refusals), C07 (result extension matches the result image),
-    C13 (inputs untouched) at the image level."""
+def consistent(W, E=None):
+    """generated wrapper whose extension records its image's shape and slice dim (the C07 invariant on inputs);
+    judged on the case alone (the second argument is accepted for callers of the former signature and ignored)"""
+    T = truth_ext(W)
+    return T['shape'] == W['img']['shape'] and T['sdim'] == W['img']['slice']
+
+
+def close_mat(A, B, rtol=Fr(1, 100000), atol=Fr(1, 100000000)):
+    """np.allclose(A, B) with numpy's default tolerances, exactly (what the properties ask of affines)"""
+    A, B = fmat(A), fmat(B)
+    return len(A) == len(B) and all(len(r) == len(s) and all(abs(x - y) <= atol + rtol * abs(y) for x, y in zip(r, s))
+                                    for r, s in zip(A, B))
+
+
+def check_rules_E(E):
+    """The format rules of the C07 text on an abstracted extension, independent of check_valid: 3-5-D shape, slice dim
+    0..2 or none, 4x4 affine, base dictionaries present for every class the shape admits, each key once (ext_to_json
+    already refuses a key in two classes or in a class the shape does not admit), each varying key with exactly the
+    number of values its class and the shape dictate (classes of multiplicity 1 have no defined count: open finding N10)."""
+    sh = E['shape']
+    if not (3 <= len(sh) <= 5):
+        return 'shape %r is not 3..5-D' % (sh,)
+    if E['sdim'] is not None and not (0 <= E['sdim'] < 3):
+        return 'slice dim %r out of range' % (E['sdim'],)
+    if len(E['aff']) != 4 or any(len(r) != 4 for r in E['aff']):
+        return 'affine is not 4x4'
+    if any(extlib.class_ok(sh, c) for c in ('TSamples', 'TSlices')) and not E['ht']:
+        return "the 'time' dictionaries are missing"
+    if any(extlib.class_ok(sh, c) for c in ('VSamples', 'VSlices')) and not E['hv']:
+        return "the 'vector' dictionaries are missing"
+    d = extlib.dims(E)
+    seen = set()
+    for k, c, vs in E['entries']:
+        if k in seen:
+            return 'key %r is classified twice' % (k,)
+        seen.add(k)
+        if not extlib.class_ok(sh, c):
+            return 'key %r sits in %s, which shape %r does not admit' % (k, c, sh)
+        if c == 'GConst':
+            continue
+        if extlib.PYCLS[c][1] == 'slices' and E['sdim'] is None:
+            return 'key %r is per-slice but there is no slice dimension' % (k,)
+        m = extlib.mult(d, c)
+        if m > 1 and len(vs) != m:
+            return 'key %r in %s holds %d values, %d required' % (k, c, len(vs), m)
+    return None
+
+
+def M(tags, clause, text):
+    """oracle message: '<property ids>: [<clause id>] text'; the clause id is what signatures are built from"""
+    return '%s: [%s] %s' % (tags, clause, text)
+
+
+def clause_of(msg):
+    m = re.match(r'[A-Z0-9,]+: \[([^\]]+)\]', msg or '')
+    return m.group(1) if m else None
+
+
+_KNOWN = [None]
+
+
+def known_sigs():
+    """signatures of all `open:` lines (any property), read once"""
+    if _KNOWN[0] is None:
+        out = set()
+        p = os.path.join(os.path.dirname(os.path.dirname(os.path.abspath(__file__))), 'known-findings.txt')
+        try:
+            for line in open(p):
+                m = re.match(r'open:\s+property=\S+\s+sig=(\S+)', line.strip())
+                if m:
+                    out.add(m.group(1))
+        except OSError:
+            pass
+        _KNOWN[0] = out
+    return _KNOWN[0]
+
+
+def prefer_unknown(msgs, sigf, case, obs, pid=None):
+    """rule: evaluate every clause; among the messages (of property `pid` when given) return one that is NOT an open
+    finding if there is one, else the first"""
+    if pid is not None:
+        msgs = [m for m in msgs if m.startswith('harness:') or pid in m.split(':', 1)[0].split(',')]
+    for m in msgs:
+        if m.startswith('harness:') or sigf(case, obs, m) not in known_sigs():
+            return m
+    return msgs[0] if msgs else None
+
+
+def matches_image(tags, who, X, shape, slice_dim, aff, lin_only=False):
+    """C07 clauses 'the extension records the shape / slice dim / affine of the image it is attached to', against
+    values derived from the CASE (expected image shape, expected header slice dim, expected affine)"""
+    out = []
+    r = check_rules_E(X)
+    if r:
+        out.append(M(tags, 'ext-rules', '%s: extension breaks the format rules: %s' % (who, r)))
+    if X['shape'] != shape:
+        out.append(M(tags if not lin_only else 'C04,C07', 'ext-shape', '%s: extension shape %r, image shape %r' % (who, X['shape'], shape)))
+    if X['sdim'] != slice_dim:
+        out.append(M(tags, 'ext-sdim', '%s: extension slice_dim %r, header slice dim %r' % (who, X['sdim'], slice_dim)))
+    if lin_only:
+        if not close_mat([r_[:3] for r_ in X['aff'][:3]], [r_[:3] for r_ in aff[:3]]):
+            out.append(M(tags, 'ext-linear', '%s: extension 3x3 part differs from the image\'s' % who))
+    elif not close_mat(X['aff'], aff):
+        out.append(M(tags, 'ext-affine', '%s: extension affine differs from the image affine' % who))
+    return out
+
+
+def inputs_as_generated(ws, in_exts):
+    """rule 6: what the harness fed the model (the real input extensions) must be what the generator meant"""
+    out = []
+    for i, (W, X) in enumerate(zip(ws, in_exts)):
+        T = truth_ext(W)
+        if X['shape'] != T['shape'] or X['sdim'] != T['sdim'] or not close_mat(X['aff'], T['aff']) or \
+                sorted(map(repr, X['entries'])) != sorted(map(repr, T['entries'])) or X['ht'] != T['ht'] or X['hv'] != T['hv']:
+            if W.get('ext') is None:
+                out.append(M('C07', 'make-empty', 'input %d: NiftiWrapper(make_empty=True) built an extension that does not '
+                             'record the image (shape %r sdim %r)' % (i, X['shape'], X['sdim'])))
+            else:
+                out.append('harness: input %d: the extension built from the case is not the generated one' % i)
+    return out
+
+
+def merge_msgs(case, obs):
+    """every failing clause of C03 (data stacked in input order, affine extended, refusals), C07 (the result extension is
+    valid and records the result image) and C13 (inputs untouched) at the image level"""
     if 'crash' in obs:
-        return 'harness: %s %s' % (obs.get('crash'), obs.get('msg'))
+        return ['harness: %s %s' % (obs.get('crash'), obs.get('msg'))]
+    out = []
     if obs.get('untouched') is False:
-        return 'C13: from_sequence modified an input image / extension'
+        out.append(M('C13', 'input-modified', 'from_sequence modified an input image / extension'))
     ws, dim = case['ws'], case['dim']
     n = len(ws)
     sh = ws[0]['img']['shape']
+    out += inputs_as_generated(ws, obs.get('in_exts', []))
     if n < 2 or any(W['img']['shape'] != sh for W in ws):
-        return None                                   # outside the property's quantifier
+        return out                                    # outside the property's quantifier
     if dim is None:
         dim = default_merge_dim(sh)
         if dim is None:
-            return None
+            return out
     elif not (0 <= dim < 5) or (dim < len(sh) and sh[dim] != 1):
-        return None if obs.get('err') == 'EValue' else 'C03: bad dim argument %r: expected ValueError, got %r' % (dim, obs.get('exc') or 'a result')
+        if obs.get('err') != 'EValue':
+            out.append(M('C03', 'bad-dim', 'dim argument %r: expected ValueError, got %r' % (dim, obs.get('exc') or 'a result')))
+        return out
     verdict = classify_merge(ws, dim)
     if verdict is None:
-        return None
+        return out
     if verdict == 'refuse':
-        return None if obs.get('err') == 'EValue' else \
-            'C03: orientation differs / positions not increasing along the merge axis: expected ValueError, got %r' % (obs.get('exc') or 'a result')
+        if obs.get('err') != 'EValue':
+            out.append(M('C03', 'not-refused', 'orientation differs / positions not increasing along the merge axis: expected '
+                         'ValueError, got %r' % (obs.get('exc') or 'a result')))
+        return out
+    allcons = all(consistent(W) for W in ws)
     if 'err' in obs:
-        if not all(consistent(W, X) for W, X in zip(ws, obs['in_exts'])):
-            return None                               # an extension that contradicts its image may legitimately fail to merge
-        return 'C03: mergeable sequence: from_sequence(dim=%r) raised %s: %s' % (case['dim'], obs.get('exc'), obs.get('msg'))
+        if not allcons:                               # an extension that contradicts its image may legitimately fail to merge
+            pass
+        elif obs.get('exc') == 'MissingExtensionError':
+            # the final NiftiWrapper(result) found no extension passing check_valid: the merge PRODUCED an invalid one
+            out.append(M('C03,C07', 'result-invalid', 'from_sequence(dim=%r) produced an extension that '
+                         'check_valid rejects (MissingExtensionError)' % (case['dim'],)))
+        else:
+            out.append(M('C03', 'raised', 'mergeable sequence: from_sequence(dim=%r) raised %s: %s' % (case['dim'], obs.get('exc'), obs.get('msg'))))
+        return out
     R = obs['res']
     rsh = merged_shape(sh, dim, n)
     if R['shape'] != rsh:
-        return 'C03: result shape %r, expected %r' % (R['shape'], rsh)
-    for idx in indices(rsh):
-        src = list(idx)
-        i = src[dim]
-        src[dim] = 0
-        src = src[:len(sh)]
-        if R['data'][offset(rsh, idx)] != ws[i]['img']['data'][offset(sh, src)]:
-            return 'C03: voxel %r of the result is not voxel %r of input %d' % (idx, tuple(src), i)
+        out.append(M('C03', 'shape', 'result shape %r, expected %r' % (R['shape'], rsh)))
+    else:
+        for idx in indices(rsh):
+            src = list(idx)
+            i = src[dim]
+            src[dim] = 0
+            src = src[:len(sh)]
+            if R['data'][offset(rsh, idx)] != ws[i]['img']['data'][offset(sh, src)]:
+                out.append(M('C03', 'voxel', 'voxel %r of the result is not voxel %r of input %d' % (idx, tuple(src), i)))
+                break
     A0 = ws[0]['img']['aff']
     exp = fmat(A0)
     if dim < 3:
         t0, t1 = fcol(A0, 3), fcol(ws[1]['img']['aff'], 3)
         for r in range(3):
             exp[r][dim] = t1[r] - t0[r]
-    if fmat(R['aff']) != exp:
-        return 'C03: result affine %r, expected %r' % (R['aff'], [[float(x) for x in r] for r in exp])
-    if R['best'] != R['aff']:
-        return 'C03: result header best affine differs from the image affine'
+    if not close_mat(R['aff'], exp):
+        out.append(M('C03', 'affine', 'result affine %r, expected %r' % (R['aff'], [[float(x) for x in r] for r in exp])))
     sls = [W['img']['slice'] for W in ws]
     esl = sls[0] if all(s == sls[0] for s in sls) else None
     if R['slice'] != esl:
-        return 'C03: result header slice dim %r, expected %r' % (R['slice'], esl)
-    E = R['ext']
-    if E['shape'] != R['shape'] and obs['in_exts'][0]['shape'] == sh:
-        return 'C07: extension shape %r differs from image shape %r' % (E['shape'], R['shape'])
-    if fmat(E['aff']) != fmat(R['aff']):
-        return 'C07: extension affine differs from the image affine'
-    if E['sdim'] != R['slice'] and all(consistent(W, X) for W, X in zip(ws, obs['in_exts'])):
-        return 'C07: extension slice_dim %r differs from the header slice dim %r' % (E['sdim'], R['slice'])
-    return None
+        out.append(M('C03', 'slice', 'result header slice dim %r, expected %r' % (R['slice'], esl)))
+    if truth_ext(ws[0])['shape'] == sh:               # (an input extension of another shape cannot record the result's)
+        out += matches_image('C07', 'result', R['ext'], rsh, esl, exp)
+    return out
+
+
+def oracle_merge(case, obs):
+    return prefer_unknown(merge_msgs(case, obs), sig_merge, case, obs)
+
+
+def merge_call(ws, dim):
+    """the DcmMetaExtension.from_sequence call that NiftiWrapper.from_sequence makes, from the CASE: the generated
+    extensions, the resolved dim, the merged affine and the merged header slice dim as arguments"""
+    sls = [W['img']['slice'] for W in ws]
+    esl = sls[0] if all(x == sls[0] for x in sls) else None
+    A = [list(r) for r in ws[0]['img']['aff']]
+    if dim is not None and 0 <= dim < 3 and len(ws) > 1:
+        for r in range(3):
+            A[r][dim] = ws[1]['img']['aff'][r][3] - ws[0]['img']['aff'][r][3]
+    return {'exts': [truth_ext(W) for W in ws], 'dim': -1 if dim is None else dim, 'aff': A, 'sdim_arg': esl}
 
 
 def sig_merge(case, obs, msg):
+    """open findings are recognised by their MECHANISM, everything else by the failing clause (+ exception class)"""
+    cl = clause_of(msg) or 'other'
     ws = case['ws']
-    if msg and msg.startswith('C07: extension slice_dim') and obs['res']['slice'] is None and obs['in_exts'][0]['sdim'] is not None:
-        return SIG_N8
-    if 'err' in obs and 'in_exts' in obs:
+    if cl == 'ext-sdim' and 'res' in obs:
+        # N8: the merged header has no slice dim (inputs disagree / none has one) and the result extension kept the FIRST
+        # input extension's slice_dim
+        sls = [W['img']['slice'] for W in ws]
+        esl = sls[0] if all(s == sls[0] for s in sls) else None
+        first = truth_ext(ws[0])['sdim']
+        if esl is None and first is not None and obs['res']['ext']['sdim'] == first and obs['res']['slice'] is None:
+            return SIG_N8
+    if cl == 'raised':
         dim = case['dim'] if case['dim'] is not None else default_merge_dim(ws[0]['img']['shape'])
-        s = extlib.finding_sig_merge({'exts': obs['in_exts'], 'dim': -1 if dim is None else dim, 'sdim_arg': None}, obs)
+        s = extlib.finding_sig_merge(merge_call(ws, dim), obs)      # N1 / N3 / N4 by mechanism (extlib)
         if s:
             return s
-    return 'imgmerge/%s/%s' % (case.get('kind', '?').split('/')[1] if '/' in case.get('kind', '') else '?',
-                               obs.get('exc') if 'err' in obs else 'wrong-result')
+    return 'imgmerge/%s%s' % (cl, '/' + str(obs.get('exc')) if 'err' in obs else '')
 
 
 def piece_shape(sh, dim):
@@ -710,143 +885,178 @@ def piece_shape(sh, dim):
     return out
 
 
-def oracle_split(case, obs):
-    """C04 (as many pieces as the axis is long, in order, piece i = hyperplane i, translation moved by i columns, linear
-    part unchanged), C07 (piece extension shape = piece image shape, slice dim, 3x3 part), C13 (input untouched)."""
+def split_msgs(case, obs):
+    """every failing clause of C04 (as many pieces as the axis is long, in order, piece i = hyperplane i, translation
+    moved by i columns, rest of the affine and slice dim unchanged), C07 (each piece's extension is valid and records the
+    piece's shape, slice dim and 3x3 part) and C13 (input untouched)"""
     if 'crash' in obs:
-        return 'harness: %s %s' % (obs.get('crash'), obs.get('msg'))
+        return ['harness: %s %s' % (obs.get('crash'), obs.get('msg'))]
+    out = []
     if obs.get('untouched') is False:
-        return 'C13: split modified its input image / extension'
+        out.append(M('C13', 'input-modified', 'split modified its input image / extension'))
     I, dim = case['w']['img'], case['dim']
     sh = I['shape']
-    E0 = obs['in_exts'][0]
+    out += inputs_as_generated([case['w']], obs.get('in_exts', []))
     if dim is None:
         dim = len(sh) - 1
         if dim == 2:
             if I['slice'] is None:
-                return None if obs.get('err') == 'EValue' else 'C04: slice dim unknown: expected ValueError'
+                if 'err' not in obs:
+                    out.append(M('C04', 'no-slice-dim', 'slice dim unknown: split() must refuse'))
+                return out
             dim = I['slice']
     if dim >= len(sh):
-        return None if 'err' in obs else 'C04: split along a missing axis returned pieces'
-    if not consistent(case['w'], E0):
-        return None                                   # the image half below is checked through the correspondence only
+        if 'err' not in obs:
+            out.append(M('C04', 'missing-axis', 'split along a missing axis returned pieces'))
+        return out
+    if not consistent(case['w']):
+        return out                                    # the image half below is checked through the correspondence only
     if 'err' in obs:
-        return 'C04: split(dim=%r) raised %s: %s' % (case['dim'], obs.get('exc'), obs.get('msg'))
+        out.append(M('C04', 'raised', 'split(dim=%r) raised %s: %s' % (case['dim'], obs.get('exc'), obs.get('msg'))))
+        return out
     P = obs['pieces']
     if len(P) != sh[dim]:
-        return 'C04: %d pieces for an axis of length %d' % (len(P), sh[dim])
+        out.append(M('C04', 'count', '%d pieces for an axis of length %d' % (len(P), sh[dim])))
+        return out
     psh = piece_shape(sh, dim)
     A = fmat(I['aff'])
+    T = truth_ext(case['w'])
     for i, p in enumerate(P):
         if p['shape'] != psh:
-            return 'C04: piece %d has shape %r, expected %r' % (i, p['shape'], psh)
-        for idx in indices(psh):
-            src = list(idx) + [0] * (len(sh) - len(idx))
-            src[dim] = i
-            if p['data'][offset(psh, idx)] != I['data'][offset(sh, src)]:
-                return 'C04: voxel %r of piece %d is not voxel %r of the parent' % (idx, i, tuple(src))
+            out.append(M('C04', 'shape', 'piece %d has shape %r, expected %r' % (i, p['shape'], psh)))
+        else:
+            for idx in indices(psh):
+                src = list(idx) + [0] * (len(sh) - len(idx))
+                src[dim] = i
+                if p['data'][offset(psh, idx)] != I['data'][offset(sh, src)]:
+                    out.append(M('C04', 'voxel', 'voxel %r of piece %d is not voxel %r of the parent' % (idx, i, tuple(src))))
+                    break
         exp = [list(r) for r in A]
         if dim < 3:
             for r in range(3):
                 exp[r][3] = A[r][3] + i * A[r][dim]
-        if fmat(p['aff']) != exp:
-            return 'C04: piece %d affine %r, expected %r' % (i, p['aff'], [[float(x) for x in r] for r in exp])
-        if p['best'] != p['aff']:
-            return 'C04: piece %d: header best affine differs from the image affine' % i
+        if not close_mat(p['aff'], exp):
+            out.append(M('C04', 'affine', 'piece %d affine %r, expected %r' % (i, p['aff'], [[float(x) for x in r] for r in exp])))
         if p['slice'] != I['slice']:
-            return 'C04: piece %d header slice dim %r, parent %r' % (i, p['slice'], I['slice'])
-        X = p['ext']
-        if X['shape'] != p['shape']:
-            return 'C04,C07: (F5) piece %d extension shape %r differs from its image shape %r' % (i, X['shape'], p['shape'])
-        if X['sdim'] != p['slice']:
-            return 'C07: piece %d extension slice_dim %r, header %r' % (i, X['sdim'], p['slice'])
-        if [r[:3] for r in fmat(X['aff'])[:3]] != [r[:3] for r in fmat(E0['aff'])[:3]]:
-            return 'C07: piece %d extension 3x3 part changed' % i
-    return None
+            out.append(M('C04', 'slice', 'piece %d header slice dim %r, parent %r' % (i, p['slice'], I['slice'])))
+        out += matches_image('C07', 'piece %d' % i, p['ext'], psh, I['slice'], T['aff'], lin_only=True)
+        if len(out) > 6:
+            break
+    return out
+
+
+def oracle_split(case, obs):
+    return prefer_unknown(split_msgs(case, obs), sig_split, case, obs)
 
 
 def sig_split(case, obs, msg):
-    if 'err' in obs and 'in_exts' in obs and case['dim'] is not None:
-        s = extlib.finding_sig_subset({'ext': obs['in_exts'][0], 'dim': case['dim']}, obs)
-        if s:
-            return s
-    return 'imgsplit/%s' % (obs.get('exc') if 'err' in obs else 'wrong-result')
+    cl = clause_of(msg) or 'other'
+    if cl == 'raised' and case['dim'] is not None:
+        T = truth_ext(case['w'])
+        md = T['sdim'] if case['dim'] == case['w']['img']['slice'] else case['dim']
+        if md is not None:
+            s = extlib.finding_sig_subset({'ext': T, 'dim': md}, obs)   # N2 by mechanism (a key in the vanishing base)
+            if s:
+                return s
+    return 'imgsplit/%s%s' % (cl, '/' + str(obs.get('exc')) if 'err' in obs else '')
 
 
-def oracle_rt(case, obs):
-    """C05 image half: split then merge in order reproduces shape, data and affine; merge then split returns the inputs' data."""
+def rt_msgs(case, obs):
+    """every failing clause of C05 (split then merge reproduces shape, data, affine, slice dim; merge then split returns the
+    inputs' voxels), C07 (every produced extension is valid and records its image) and C13"""
     if 'crash' in obs:
-        return 'harness: %s %s' % (obs.get('crash'), obs.get('msg'))
+        return ['harness: %s %s' % (obs.get('crash'), obs.get('msg'))]
+    out = []
     if obs.get('untouched') is False:
-        return 'C13: the round trip modified an input image / extension'
+        out.append(M('C13', 'input-modified', 'the round trip modified an input image / extension'))
     dim = case['dim']
     if case['mode'] == 'sm':
         I = case['w']['img']
         sh = I['shape']
-        if sh[dim] < 2 or not consistent(case['w'], obs['in_exts'][0]):
-            return None
+        out += inputs_as_generated([case['w']], obs.get('in_exts', []))
+        if sh[dim] < 2 or not consistent(case['w']):
+            return out
         if 'err' in obs:
-            return 'C05: split then merge along %d raised %s: %s' % (dim, obs.get('exc'), obs.get('msg'))
+            if obs.get('exc') == 'MissingExtensionError':
+                out.append(M('C05,C07', 'result-invalid', 'split then merge along %d produced an extension that check_valid rejects' % dim))
+            else:
+                out.append(M('C05', 'raised', 'split then merge along %d raised %s: %s' % (dim, obs.get('exc'), obs.get('msg'))))
+            return out
         R = obs['res']
         trimmed = list(sh)
         while len(trimmed) > 3 and trimmed[-1] == 1 and len(trimmed) - 1 > dim:
             trimmed = trimmed[:-1]
         if R['shape'] != trimmed:
-            return 'C05: split then merge: shape %r, expected %r' % (R['shape'], trimmed)
+            out.append(M('C05', 'shape', 'split then merge: shape %r, expected %r' % (R['shape'], trimmed)))
         if R['data'] != I['data']:
-            return 'C05: split then merge: voxel data differ'
-        if fmat(R['aff']) != fmat(I['aff']):
-            return 'C05: split then merge: affine %r, original %r' % (R['aff'], I['aff'])
+            out.append(M('C05', 'voxel', 'split then merge: voxel data differ'))
+        if not close_mat(R['aff'], I['aff']):
+            out.append(M('C05', 'affine', 'split then merge: affine %r, original %r' % (R['aff'], I['aff'])))
         if R['slice'] != I['slice']:
-            return 'C05: split then merge: header slice dim %r, original %r' % (R['slice'], I['slice'])
-        return None
+            out.append(M('C05', 'slice', 'split then merge: header slice dim %r, original %r' % (R['slice'], I['slice'])))
+        out += matches_image('C07', 'merged pieces', R['ext'], trimmed, I['slice'], I['aff'])
+        return out
     ws = case['ws']
     sh = ws[0]['img']['shape']
+    out += inputs_as_generated(ws, obs.get('in_exts', []))
     if len(ws) < 2 or any(W['img']['shape'] != sh for W in ws) or classify_merge(ws, dim) != 'accept':
-        return None
-    if not all(consistent(W, X) for W, X in zip(ws, obs['in_exts'])) or len(set(W['img']['slice'] for W in ws)) > 1:
-        return None
+        return out
+    if not all(consistent(W) for W in ws) or len(set(W['img']['slice'] for W in ws)) > 1:
+        return out
     if 'err' in obs:
-        return 'C05: merge then split along %d raised %s: %s' % (dim, obs.get('exc'), obs.get('msg'))
+        if obs.get('exc') == 'MissingExtensionError':
+            out.append(M('C05,C07', 'result-invalid', 'merge then split along %d produced an extension that check_valid rejects' % dim))
+        else:
+            out.append(M('C05', 'raised', 'merge then split along %d raised %s: %s' % (dim, obs.get('exc'), obs.get('msg'))))
+        return out
     P = obs['pieces']
     if len(P) != len(ws):
-        return 'C05: merge then split: %d pieces from %d inputs' % (len(P), len(ws))
+        out.append(M('C05', 'count', 'merge then split: %d pieces from %d inputs' % (len(P), len(ws))))
+        return out
+    psh = piece_shape(merged_shape(sh, dim, len(ws)), dim)
+    A0 = [list(r) for r in fmat(ws[0]['img']['aff'])]
+    if dim < 3:                                       # the merged affine: column dim = second translation - first
+        for r in range(3):
+            A0[r][dim] = Fr(ws[1]['img']['aff'][r][3]) - Fr(ws[0]['img']['aff'][r][3])
     for i, (p, W) in enumerate(zip(P, ws)):
         if p['data'] != W['img']['data']:
-            return 'C05: merge then split: piece %d does not carry input %d\'s voxels' % (i, i)
-        if p['shape'] != piece_shape(merged_shape(sh, dim, len(ws)), dim):
-            return 'C05: merge then split: piece %d shape %r' % (i, p['shape'])
-    return None
+            out.append(M('C05', 'voxel', 'merge then split: piece %d does not carry input %d\'s voxels' % (i, i)))
+        if p['shape'] != psh:
+            out.append(M('C05', 'shape', 'merge then split: piece %d shape %r' % (i, p['shape'])))
+        out += matches_image('C07', 'piece %d of the merged image' % i, p['ext'], psh, W['img']['slice'], A0, lin_only=True)
+    return out
+
+
+def oracle_rt(case, obs):
+    return prefer_unknown(rt_msgs(case, obs), sig_rt, case, obs)
 
 
 def sig_rt(case, obs, msg):
-    if 'err' in obs and 'in_exts' in obs:
+    cl = clause_of(msg) or 'other'
+    if cl == 'raised':
         if case['mode'] == 'ms':
-            s = extlib.finding_sig_merge({'exts': obs['in_exts'], 'dim': case['dim'], 'sdim_arg': None}, obs)
-        else:
-            s = extlib.finding_sig_subset({'ext': obs['in_exts'][0], 'dim': case['dim']}, obs) or \
-                extlib.finding_sig_merge({'exts': [dict(obs['in_exts'][0], shape=piece_shape(obs['in_exts'][0]['shape'], case['dim']))] * 2,
-                                          'dim': case['dim'], 'sdim_arg': None}, obs)
+            s = extlib.finding_sig_merge(merge_call(case['ws'], case['dim']), obs)
+        else:       # only the split stage has a reference here; an exception of the merge stage keeps its own signature
+            T = truth_ext(case['w'])
+            md = T['sdim'] if case['dim'] == case['w']['img']['slice'] else case['dim']
+            s = extlib.finding_sig_subset({'ext': T, 'dim': md}, obs) if md is not None else None
         if s:
             return s
-    return 'imgrt/%s/%s' % (case['mode'], obs.get('exc') if 'err' in obs else 'wrong-result')
+    return 'imgrt/%s/%s%s' % (case['mode'], cl, '/' + str(obs.get('exc')) if 'err' in obs else '')
 
 
 # ------------------------------------------------------------------------------------------ parts
 
 def for_property(part, pid):
     """The same part with its oracle restricted to the statements of ONE property.  Every oracle message starts with the ids
-    of the properties it belongs to ('C03: ...', 'C04,C07: ...', 'C13: ...'); 'harness: ...' always passes.  Use
+    of the properties it belongs to ('C03: [clause] ...', 'C04,C07: ...', 'C13: ...'); 'harness: ...' always passes.  ALL
+    failing clauses of the case are evaluated; among those of `pid` one that is not an open finding is preferred.  Use
         PARTS = [imglib.for_property(imglib.ImgMergePart, 'C03'), ...]
     so that e.g. the open C07 finding N8 does not show up as a C03 failure."""
     class P(part):
         @staticmethod
         def oracle(case, obs):
-            m = part.oracle(case, obs)
-            if not m or m.startswith('harness:'):
-                return m
-            tags = m.split(':', 1)[0].split(',')
-            return m if pid in tags else None
+            return prefer_unknown(part.messages(case, obs), part.signature, case, obs, pid)
     P.__name__ = '%s_%s' % (part.__name__, pid)
     return P
 
@@ -878,7 +1088,7 @@ class ImgMergePart:
     CORR_SHOW = 'Wrapper.Corr.show_merge'
     SHARD = 60
     IMPL_TIMEOUT = 30
-    RULE = ('2..4 in-memory Nifti images (3-5 D, extents 1..3 incl. (X,Y,Z,1) and (X,Y,Z,1,V), unique voxel values, int16/int32) with '
+    RULE = ('2..4 (thorough: 2..7) in-memory Nifti images (3-5 D, extents 1..3, thorough 1..5 (5-D: 1..4), incl. (X,Y,Z,1) and (X,Y,Z,1,V), unique voxel values, int16/int32) with '
             'axis-aligned anisotropic, axis-permuted and integer-Pythagorean oblique affines (non-symmetric 3x3, sheared variants), '
             'any header slice dim, extensions empty / with a slice_dim or affine different from the image / carrying keys, merged along '
             'dims 0..4 and the default dim; error stream on both sides of every threshold: orientation entries off by 0.98/1.02/3+ '
@@ -888,7 +1098,8 @@ class ImgMergePart:
 
     @staticmethod
     def gen_cases(rng, tier):
-        n_ok, n_err = (260, 260) if tier == 'quick' else (2500, 2500)
+        set_tier(tier)
+        n_ok, n_err = (260, 260) if tier == 'quick' else (1800, 1800)
         cases = [gen_merge_ok(rng, with_keys=(i % 4 == 0)) for i in range(n_ok)]
         cases += [gen_merge_err(rng) for _ in range(n_err)]
         return cases
@@ -896,6 +1107,7 @@ class ImgMergePart:
     run_impl = staticmethod(run_merge)
     coq_case = staticmethod(merge_case_to_coq)
     oracle = staticmethod(oracle_merge)
+    messages = staticmethod(merge_msgs)
     signature = staticmethod(sig_merge)
 
     @staticmethod
@@ -914,19 +1126,21 @@ class ImgSplitPart:
     CORR_SHOW = 'Wrapper.Corr.show_split'
     SHARD = 60
     IMPL_TIMEOUT = 30
-    RULE = ('one image per case (3-5 D, extents 1..3 incl. trailing singleton dims and (X,Y,Z,1,V)), the affines of the merge part '
+    RULE = ('one image per case (3-5 D, extents 1..3, thorough 1..5 (5-D: 1..4), incl. trailing singleton dims and (X,Y,Z,1,V)), the affines of the merge part '
             '(sheared non-symmetric ones dominate), header slice dim 0/1/2/None, extension empty / slice_dim differing from the header / '
             'with keys; every dim incl. the default; errors: dim beyond the shape, 3-D default without slice dim, extension without '
             'slice_dim split along the header slice dim; non-trivial = at least two pieces or an error')
 
     @staticmethod
     def gen_cases(rng, tier):
-        n, ne = (420, 40) if tier == 'quick' else (4000, 300)
+        set_tier(tier)
+        n, ne = (420, 40) if tier == 'quick' else (3000, 250)
         return [gen_split_case(rng) for _ in range(n)] + [gen_split_case(rng, err=True) for _ in range(ne)]
 
     run_impl = staticmethod(run_split)
     coq_case = staticmethod(split_case_to_coq)
     oracle = staticmethod(oracle_split)
+    messages = staticmethod(split_msgs)
     signature = staticmethod(sig_split)
 
     @staticmethod
@@ -952,20 +1166,26 @@ class ImgRoundTripPart:
     IMPL_TIMEOUT = 40
     RULE = ('split-merge: an image with at least two positions on the chosen axis (every dim 0..ndim-1) is split and the pieces are '
             'merged back along the same dim; merge-split: a mergeable sequence (as in imgmerge) is merged and split again; extensions '
-            'empty or canonical with keys; non-trivial = always')
+            'empty or canonical with keys; non-trivial = at least two positions on the axis and more than one voxel, or an error')
 
     @staticmethod
     def gen_cases(rng, tier):
-        return [gen_rt_case(rng) for _ in range(240 if tier == 'quick' else 2500)]
+        set_tier(tier)
+        return [gen_rt_case(rng) for _ in range(240 if tier == 'quick' else 1800)]
 
     run_impl = staticmethod(run_rt)
     coq_case = staticmethod(rt_case_to_coq)
     oracle = staticmethod(oracle_rt)
+    messages = staticmethod(rt_msgs)
     signature = staticmethod(sig_rt)
 
     @staticmethod
     def nontrivial(case, obs):
-        return True
+        if 'err' in obs:
+            return True
+        I = case['w']['img'] if case['mode'] == 'sm' else case['ws'][0]['img']
+        npos = I['shape'][case['dim']] if case['mode'] == 'sm' else len(case['ws'])
+        return npos >= 2 and len(I['data']) > 1
 
     @staticmethod
     def shrink(case):
